@@ -447,6 +447,9 @@ func (ev *evaluator) expr(fr *frame, e ast.Expr) value {
 		if v, ok := fr.env[o]; ok {
 			return v
 		}
+		if pv, ok := o.(*types.Var); ok && pv.Pkg() != nil && pv.Parent() == pv.Pkg().Scope() {
+			return ev.packageTable(pv)
+		}
 		return unknown("free variable %s", e.Name)
 	case *ast.SelectorExpr:
 		// field of a record
@@ -572,8 +575,11 @@ func (ev *evaluator) expr(fr *frame, e ast.Expr) value {
 	case *ast.IndexExpr:
 		x := ev.expr(fr, e.X)
 		i := ev.expr(fr, e.Index)
-		if x.k == vList && i.isInt() && int(i.int()) < len(x.list) && i.int() >= 0 {
-			return x.list[i.int()]
+		if x.k == vList && i.isInt() {
+			if int(i.int()) < len(x.list) && i.int() >= 0 {
+				return x.list[i.int()]
+			}
+			return unknown("index %d out of range of a %d-element table (would panic)", i.int(), len(x.list))
 		}
 		if x.isStr() && i.isInt() {
 			return unknown("string index")
@@ -756,3 +762,75 @@ func enumConsts(nt *types.Named) []*types.Const {
 }
 
 func constVal(c *types.Const) value { return value{k: vConst, c: c.Val()} }
+
+// packageTable folds a package-level variable that is initialised with a composite literal of
+// constants (array, slice) and never assigned anywhere else in its package: a lookup table.
+func (ev *evaluator) packageTable(pv *types.Var) value {
+	pk := ev.p.Pkgs[pv.Pkg().Path()]
+	if pk == nil {
+		return unknown("package-level variable %s of an unloaded package", pv.Name())
+	}
+	var init ast.Expr
+	assigned := false
+	for _, f := range pk.Syntax {
+		ast.Inspect(f, func(n ast.Node) bool {
+			switch s := n.(type) {
+			case *ast.ValueSpec:
+				for i, nm := range s.Names {
+					if pk.TypesInfo.Defs[nm] == pv && i < len(s.Values) {
+						init = s.Values[i]
+					}
+				}
+			case *ast.AssignStmt:
+				for _, l := range s.Lhs {
+					base := l
+					for {
+						if ix, ok := base.(*ast.IndexExpr); ok {
+							base = ix.X
+							continue
+						}
+						break
+					}
+					if id, ok := base.(*ast.Ident); ok && pk.TypesInfo.Uses[id] == pv {
+						assigned = true
+					}
+				}
+			}
+			return true
+		})
+	}
+	cl, ok := init.(*ast.CompositeLit)
+	if !ok || assigned {
+		return unknown("package-level variable %s is not an init-only literal table", pv.Name())
+	}
+	var elemT types.Type
+	switch u := pv.Type().Underlying().(type) {
+	case *types.Array:
+		elemT = u.Elem()
+	case *types.Slice:
+		elemT = u.Elem()
+	default:
+		return unknown("package-level variable %s is not an array or slice table", pv.Name())
+	}
+	fr := &frame{pkg: pk, env: map[types.Object]value{}}
+	var out []value
+	next := 0
+	for _, el := range cl.Elts {
+		idx := next
+		val := el
+		if kv, ok := el.(*ast.KeyValueExpr); ok {
+			k := ev.expr(fr, kv.Key)
+			if !k.isInt() {
+				return unknown("non-constant key in table %s", pv.Name())
+			}
+			idx = int(k.int())
+			val = kv.Value
+		}
+		for len(out) <= idx {
+			out = append(out, zeroValue(elemT))
+		}
+		out[idx] = ev.expr(fr, val)
+		next = idx + 1
+	}
+	return value{k: vList, list: out}
+}
